@@ -157,6 +157,10 @@ def kernel? (toks : List String) : Option (Ext → R Int) :=
   | ["boundary", nr, nc, nval, cells, mask] => do
       let r ← I nr; let c ← I nc; let n ← I nval; let l ← L cells; let m ← L mask
       pure fun e => delineateBoundary e r c n (intsF l) (intsF m)
+  | ["area", nr, nc, nval, ninl, outlet, code, fdir, inlets] => do
+      let r ← I nr; let c ← I nc; let n ← I nval; let k ← I ninl; let o ← I outlet
+      let cd ← L code; let fd ← L fdir; let il ← L inlets
+      pure fun e => delineateArea e r c n k o (intsF cd) (intsF fd) (intsF il)
   | _ => none
 
 /-- grow the extent named by each out-of-bounds fault until the run is free of them -/
